@@ -16,6 +16,15 @@ type c11Ctx struct {
 	f    func(h *gen.Expr) *gen.Expr
 }
 
+// dotRHS turns an expression into something that may follow a dot: a function call as it is, anything else
+// inside a multi-select list.
+func dotRHS(h *gen.Expr) gen.Step {
+	if h.K == gen.KFunc {
+		return gen.StFunc(h.Name, h.Items...)
+	}
+	return gen.StMultiList(h)
+}
+
 func c11Contexts() []c11Ctx {
 	a := func() *gen.Expr { return gen.Field("a") }
 	x := func() *gen.Expr { return gen.Field("x") }
@@ -55,6 +64,14 @@ func c11Contexts() []c11Ctx {
 			return gen.MultiHash([]gen.Key{{Name: "k"}, {Name: "k", Quoted: true}, {Name: "j"}}, []*gen.Expr{a(), h, a()})
 		}},
 		{"[□, □]", func(h *gen.Expr) *gen.Expr { return gen.MultiList(h, h) }},
+		// the hole on the right of a dot whose left side is null / missing / an out-of-range element (only a
+		// function call or a multi-select may stand there: other holes are wrapped in a multi-select list)
+		{"missing.□", func(h *gen.Expr) *gen.Expr { return gen.Chain(gen.Field("missing"), dotRHS(h)) }},
+		{"x[9].□", func(h *gen.Expr) *gen.Expr { return gen.Chain(x(), gen.StIndex(9), dotRHS(h)) }},
+		{"x[*].missing.□", func(h *gen.Expr) *gen.Expr {
+			return gen.Chain(x(), gen.StListStar(), gen.StField("missing"), dotRHS(h))
+		}},
+		{"a.□", func(h *gen.Expr) *gen.Expr { return gen.Chain(a(), dotRHS(h)) }},
 		{"not_null(a, a, □)", func(h *gen.Expr) *gen.Expr { return gen.Func("not_null", a(), a(), h) }},
 		{"merge({k: a}, {k: □})", func(h *gen.Expr) *gen.Expr {
 			return gen.Func("merge", gen.MultiHash(keyA("k"), []*gen.Expr{a()}), gen.MultiHash(keyA("k"), []*gen.Expr{h}))
@@ -86,7 +103,7 @@ func c11Errors() []struct {
 }
 
 func c11(r *mon.Run) {
-	r.Rule = "E = one representative per error kind and origin (invalid type, invalid arity, unknown function, zero slice step, by-expression key error, error inside an expref body, error inside a filter condition, ill-typed variadic argument) placed in every single-hole context of the grammar (38 contexts, incl. a multi-select hash that repeats a key: every operator side, every projection kind as left side and as right-hand side / condition, function arguments, expression-reference bodies, multi-select members), " +
+	r.Rule = "E = one representative per error kind and origin (invalid type, invalid arity, unknown function, zero slice step, by-expression key error, error inside an expref body, error inside a filter condition, ill-typed variadic argument) placed in every single-hole context of the grammar (42 contexts, incl. a multi-select hash that repeats a key: every operator side, every projection kind as left side and as right-hand side / condition, function arguments, expression-reference bodies, multi-select members), " +
 		"composed to depth 1 and 2 (3 in thorough) and evaluated on 5 documents that make the hole evaluated or legitimately skipped (left of || true-like, projection over [] / over a non-array, filter never true). plus 460 expressions in which only some elements of a projection / map / sort_by / max_by raise the error (first, middle, last, none), with an index, slice, pipe or function applied to the projection. Oracle: the model evaluates, so 'error expected' is computed. Non-trivial = distinct (context path, error kind, document) with both classes (error expected / legitimately hidden) counted."
 	r.Exhaustive = true
 	r.Floor = 1000
